@@ -172,7 +172,9 @@ func (c *Concretiser) RenderToks(toks []any) string {
 		case "d":
 			n := I(t, "n")
 			if n < 0 {
-				big := []string{"65536", "70000", "4294967296", "9223372036854775807", "9223372036854775808", "18446744073709551616", "99999999999999999999999999"}
+				big := []string{"65536", "70000", "4294967296", "9223372036854775807", "9223372036854775808", "18446744073709551616", "99999999999999999999999999",
+					// multiples of 2^64 plus a small remainder: no wrap-around turns them into small indexes
+					"18446744073709551617", "18446744073709551619", "18446744073709617151", "36893488147419103237", "55340232221128654857", "340282366920938463463374607431768211457"}
 				sb.WriteString("$" + big[c.Rng.Intn(len(big))])
 			} else {
 				// the same index may be written with leading zeros
